@@ -864,7 +864,7 @@ func (w *World) M07(rec *ScanRecord) []Violation {
 				out = append(out, viol("C03", "recover-untaint-count", "group %d below its minimum: need %d, %d tainted, untainted %d", gr.G, N, P, K))
 			}
 			// a group past its cool-down that still behaves as locked breaks C02's release half
-			if K == 0 && nreq == 0 && (P > 0 || B-cur > 0) && !gr.LockT0.IsZero() && !rec.Restarted && gr.K8sWrites+gr.AWSWrites == 0 {
+			if K == 0 && nreq == 0 && (P > 0 || B-cur > 0) && !gr.LockT0.IsZero() && !rec.Restarted && gr.K8sWrites+gr.AWSWrites == 0 && len(gr.Failed) == 0 {
 				o := &w.Cfg.Groups[gr.G].Opts
 				out = append(out, viol("C02", "lock-outlives-cooldown", "group %d: cool-down %v ended at %v, scan at %v below minimum (untainted %d < %d) still takes no action", gr.G,
 					Dur(o.ScaleUpCoolDownPeriod), gr.LockT0.Add(Dur(o.ScaleUpCoolDownPeriod)).UTC().Format(time.RFC3339Nano), gr.Start.UTC().Format(time.RFC3339Nano), len(gr.GV.Untainted), gr.EffMin))
